@@ -180,7 +180,8 @@ CHECKS = {
              "unpadded, flush with block boundaries), parent_with_alternative_sequence and incorporate_variants on features / "
              "transcripts (single / multi-block, both strands) are interpreted on chromosome and offset chunk and compared with "
              "literal substitution; dictionary round trips keep the parent; VCF grouping is checked structurally."
-             " Added: coding transcripts after length-preserving edits keep their reading frame (C13.RC; found and repaired a minus-strand defect); alternative_haplotype_mapping on the pure-Python and on the interval-index branch (C13.RM).",
+             " Added: coding transcripts after length-preserving edits keep their reading frame (C13.RC; found and repaired a minus-strand defect); alternative_haplotype_mapping on the pure-Python and on the interval-index branch (C13.RM)."
+             " The VCF grouping is decided by interpreting convert_vcf_records_to_model on modelled records in several orders (C13.R4; known finding).",
         note="Trusted: CPython ast, sa/interp.py, oracle in sa/rules/c13.py. The vcf package is absent, the VCF reader is only "
              "analysed structurally. Known findings: sequential lift-over with several length-changing variants; unsorted "
              "CHROM grouping.",
@@ -203,7 +204,8 @@ CHECKS = {
              "spellings with look-alike keys interleaved; extract_feature_types and merge_qualifiers against set semantics; "
              "tables: lower-cased member names = literal sets = anchored IGNORECASE alternatives, distinct priorities; the "
              "locus-tag groupby consumes lists that every store fills sorted by locus tag (or order-preserving filters)."
-             " Added: interval-level merge (_merge_qualifiers / export_qualifiers with parent qualifiers) as key-wise union with unchanged inputs (C18.R5).",
+             " Added: interval-level merge (_merge_qualifiers / export_qualifiers with parent qualifiers) as key-wise union with unchanged inputs (C18.R5)."
+             " Record-order independence is decided by interpretation: the written GenBank records in other orders through the locus-tag and hybrid parser classes (C18.R4).",
         note="Trusted: CPython ast, sa/interp.py. Whole-record permutation invariance of GenBank parses (Biopython objects) is "
              "not decided beyond the sortedness rule. Known finding: rank-0 truthiness.",
         design="DESIGN.md section 4, C18",
